@@ -40,8 +40,11 @@ type ProbeImpl struct {
 	Act    bus.Activation
 	mu     sync.Mutex
 	Terms  int
-	// SlowYields is the number of simulated milliseconds Slow sleeps.
+	// SlowMs is the number of simulated milliseconds Slow sleeps.
 	SlowMs int
+	// ValidatorYields makes the property validator take its time (that many
+	// forced scheduling decisions) before it answers.
+	ValidatorYields int
 }
 
 func (p *ProbeImpl) Activate(a bus.Activation, h probe.ProbeSignalHelper) error {
@@ -94,6 +97,9 @@ func (p *ProbeImpl) Slow(tok probe.Token) (probe.Token, error) {
 }
 
 func (p *ProbeImpl) OnLevelChange(v int32) error {
+	for i := 0; i < p.ValidatorYields; i++ {
+		zzsim.Yield("h.validator")
+	}
 	if v < 0 {
 		return fmt.Errorf("level cannot be negative (%d)", v)
 	}
